@@ -11,6 +11,7 @@ From QV Require Import Base.Alg Base.Sums Base.Mat Base.Tens Base.Taylor Base.Ta
 Import ListNotations.
 
 Inductive sv_variant := SvPinned | SvRepaired.
+Inductive walk_variant := WalkPinned | WalkRepaired.
 
 Section Model.
   Context {R : StarRing}.
@@ -39,13 +40,20 @@ Section Model.
              (rho0 : @mat R) : list (@mat R) :=
     gtraj dm_add dm_scale G D nsteps nref prefs 0 rho0.
 
-  (* index walk of __propagate_short_exp_with_TD_relaxation: the tensor index used in refined step j *)
-  Fixpoint td_walk (k : nat) (indxR stride cutoff : nat) : list nat :=
+  (* index walk of __propagate_short_exp_with_TD_relaxation: the tensor index used in refined step j.
+     pinned:   if indxR < cutoff_indx - 1: indxR += stride  else: indxR = cutoff_indx      (runs off the end)
+     repaired: indxR = min(indxR + stride, cutoff_indx - 1) *)
+  Definition walk_next (v : walk_variant) (indxR stride cutoff : nat) : nat :=
+    match v with
+    | WalkPinned => if Nat.ltb indxR (cutoff - 1) then indxR + stride else cutoff
+    | WalkRepaired => Nat.min (indxR + stride) (cutoff - 1)
+    end.
+  Fixpoint td_walk (v : walk_variant) (k : nat) (indxR stride cutoff : nat) : list nat :=
     match k with
     | O => []
-    | S k' => indxR :: td_walk k' (if Nat.ltb indxR (cutoff - 1) then indxR + stride else cutoff) stride cutoff
+    | S k' => indxR :: td_walk v k' (walk_next v indxR stride cutoff) stride cutoff
     end.
-  Definition td_index (stride cutoff : nat) (j : nat) : nat := nth j (td_walk (S j) 1 stride cutoff) 0%nat.
+  Definition td_index (stride cutoff : nat) (j : nat) : nat := nth j (td_walk WalkRepaired (S j) 1 stride cutoff) 0%nat.
 
   (* state vectors: psi1 = -1j*pref*dot(HH,psi1) *)
   Definition sv_add (u v : @vec R) : @vec R := tab n (fun i => u i + v i).
@@ -113,7 +121,7 @@ Definition case02_traj (c : case02) : list (@mat GQ) :=
 (* every tensor index the walk uses exists (Python would raise IndexError otherwise) *)
 Definition case02_walk_ok (c : case02) : bool :=
   match p_kind c with
-  | PTdTensor => forallb (fun i => Nat.ltb i (length (p_R c))) (td_walk (p_nsteps c * p_nref c) 1 (p_stride c) (p_cutoff c))
+  | PTdTensor => forallb (fun i => Nat.ltb i (length (p_R c))) (td_walk WalkRepaired (p_nsteps c * p_nref c) 1 (p_stride c) (p_cutoff c))
   | _ => true
   end.
 Definition agrees02 (c : case02) : bool :=
